@@ -4,6 +4,7 @@ import z3
 from pyvc.core import Unsupported
 from pyvc.extract import find_function
 from pyvc.interp import Interp, Spec
+from pyvc.ghost import Ghost
 from pyvc.runner import Harness
 from pyvc.values import Obj, Func, UF, to_z3, set_expr, StrS, IntS, ObjS
 
@@ -18,29 +19,135 @@ lower = UF('str.lower', StrS, StrS)
 count = UF('str.count', StrS, StrS, IntS)
 PatLen = UF('extract_pattern_length', StrS, IntS)
 
-PATTERN_FUNCS = ['contains(', 'regex(', 'normalized(', 'startswith(', 'fuzzy(', 'anyof(']
-KIND_KEYWORDS = ['amount', 'date', 'month', 'year', 'day', 'weekday', 'source', 'field.']
+PATTERN_FUNCS = ['contains', 'regex', 'normalized', 'startswith', 'fuzzy', 'anyof']
+KIND_NAMES = ['amount', 'date', 'month', 'year', 'day', 'weekday', 'source']
+sv = z3.StringVal
+SetS = z3.SetSort(StrS)
+# the parsed expression: its nodes in ast.walk order, and the fields of a node the ranking reads (uninterpreted: A5)
+Walk = UF('ast.walk', ObjS, SeqObj)
+N_func, N_value = UF('astnode.func', ObjS, ObjS), UF('astnode.value', ObjS, ObjS)
+N_id, N_attr = UF('astnode.id', ObjS, StrS), UF('astnode.attr', ObjS, StrS)
+N_args = UF('astnode.args', ObjS, SeqObj)
+TextLen = UF('len.of.str.constant', ObjS, IntS)
+ParseFails = UF('parse_expression.raises', StrS, z3.BoolSort())
+Tree = UF('parse_expression', StrS, ObjS)
+
+
+def isa(cls, v):
+    return UF('isinstance_' + cls, ObjS, z3.BoolSort())(v)
+
+
+def one_of(x, names):
+    return z3.Or(*[x == sv(nm) for nm in names])
+
+
+def is_pattern_call(nd):
+    """a call of one of the pattern functions, whatever the letter case or the spacing of its text"""
+    return z3.And(isa('Call', nd), isa('Name', N_func(nd)), one_of(lower(N_id(N_func(nd))), PATTERN_FUNCS))
+
+
+def arg_text(a):
+    """a string literal argument contributes its length to the pattern text"""
+    return z3.If(z3.And(isa('Constant', a), isa('str', N_value(a))), TextLen(N_value(a)), 0)
+
+
+ArgLen = Ghost('C09.pattern_text_of_arguments', [SeqObj], IntS, base=lambda a: z3.IntVal(0), step=lambda a, j, acc: acc + arg_text(a[j]))
+
+
+def kinds_step(nd, acc):
+    name_kind = z3.And(isa('Name', nd), one_of(lower(N_id(nd)), KIND_NAMES))
+    base = lower(N_id(N_value(nd)))
+    attr = z3.And(isa('Attribute', nd), isa('Name', N_value(nd)))
+    return z3.If(is_pattern_call(nd), acc,
+                 z3.If(name_kind, z3.SetAdd(acc, lower(N_id(nd))),
+                       z3.If(z3.And(attr, base == sv('field')), z3.SetAdd(acc, sv('field')),
+                             z3.If(z3.And(attr, base == sv('txn'), one_of(lower(N_attr(nd)), KIND_NAMES)), z3.SetAdd(acc, lower(N_attr(nd))), acc))))
+
+
+PatCount = Ghost('C09.pattern_conditions', [SeqObj], IntS, base=lambda s_: z3.IntVal(0), step=lambda s_, k, acc: acc + z3.If(is_pattern_call(s_[k]), 1, 0))
+PatText = Ghost('C09.pattern_text', [SeqObj], IntS, base=lambda s_: z3.IntVal(0),
+                step=lambda s_, k, acc: acc + z3.If(is_pattern_call(s_[k]), ArgLen(N_args(s_[k]), z3.Length(N_args(s_[k]))), 0))
+Kinds = Ghost('C09.constraint_kinds', [SeqObj], SetS, base=lambda s_: z3.EmptySet(StrS), step=lambda s_, k, acc: kinds_step(s_[k], acc))
 
 
 def spec_key(rule):
-    """The ranking key the statement describes, in the implementation's textual reading (DESIGN.md section 8):
-    (explicit priority, number of pattern conditions, kinds of amount/date/source/field constraints, pattern text length)."""
-    e = lower(R_match_expr(rule))
-    pat = z3.Sum([count(e, z3.StringVal(f)) for f in PATTERN_FUNCS])
-    kinds = z3.Sum([z3.If(z3.Contains(e, z3.StringVal(k)), 1, 0) for k in KIND_KEYWORDS])
-    return [R_priority(rule), pat, kinds, PatLen(R_match_expr(rule))]
+    """The ranking key the statement describes, read from the parsed match expression: (explicit priority, number of pattern conditions = calls of a
+    pattern function, number of kinds of amount / date / source / field constraints = distinct constraint names used as values, field.<x> counting as
+    one kind, total length of the pattern text = string literal arguments of the pattern functions)."""
+    nodes = Walk(Tree(R_match_expr(rule)))
+    n = z3.Length(nodes)
+    card = UF('card[%s]' % SetS, SetS, IntS)
+    return [R_priority(rule), PatCount(nodes, n), card(Kinds(nodes, n)), PatText(nodes, n)]
 
 
 def h_calculate_specificity(ctx):
+    import ast as _ast
+    from pyvc.interp import Frame, LoopSpec, PyRaise
+    from pyvc.values import SymSeq, SymSet
     sp = Spec()
-    sp.models['_extract_pattern_length'] = Func(lambda I, a, k, n: PatLen(to_z3(a[0], StrS)))
+    sp.exc_table.update({'ExpressionError': 'Exception'})
     I = Interp(ctx, sp)
     rule = Obj(ctx.fresh('rule', ObjS), 'MerchantRule')
-    r = I.call_function(find_function(ME + 'calculate_specificity'), [rule])
+    text = R_match_expr(rule.expr)
+
+    def m_parse(I_, a, k, nd):
+        t = to_z3(a[0], StrS)
+        if I_.ctx.branch(ParseFails(t), 'match_expr.does_not_parse'):
+            raise PyRaise('ExpressionError', (), 'parse_expression')
+        return Obj(Tree(t), 'astnode')
+    sp.models['expr_parser.parse_expression'] = Func(m_parse)
+    sp.models['ast.walk'] = Func(lambda I_, a, k, nd: SymSeq([Walk(to_z3(a[0]))], None, ['astnode']))
+    sp.field_sorts[('astnode', 'func')] = ('obj', 'astnode')
+    sp.field_sorts[('astnode', 'value')] = ('obj', 'astnode')
+    sp.field_sorts[('astnode', 'id')] = StrS
+    sp.field_sorts[('astnode', 'attr')] = StrS
+    sp.field_sorts[('astnode', 'args')] = ('seq', ObjS, 'astnode')
+    sp.field_sorts[('astnode', 'len')] = lambda I_, v, node: TextLen(v.expr)        # len(arg.value) of a string constant
+    q = ME + 'calculate_specificity'
+    fi = find_function(q)
+    nodes = Walk(Tree(text))
+    n = z3.Length(nodes)
+    fr = Frame(fi, {})
+    fors = sorted([x for x in _ast.walk(fi.node) if isinstance(x, _ast.For)], key=lambda x: x.lineno)
+    if len(fors) != 2:
+        raise Unsupported('calculate_specificity: expected the walk over the nodes and the walk over a call\'s arguments')
+
+    def as_set(v):
+        return v.expr if isinstance(v, SymSet) and v.expr is not None else z3.EmptySet(StrS)
+
+    def inv(I_, env, k, it):
+        return {'pattern_conditions_so_far': to_z3(env['pattern_count'], IntS) == PatCount(nodes, k),
+                'pattern_text_so_far': to_z3(env['pattern_length'], IntS) == PatText(nodes, k),
+                'constraint_kinds_so_far': as_set(env['constraint_kinds']) == Kinds(nodes, k)}
+    sp.loops[(q, fr.loop_ordinals[id(fors[0])])] = LoopSpec(
+        inv, {'pattern_count': lambda c: c.fresh('pattern_count', IntS), 'pattern_length': lambda c: c.fresh('pattern_length', IntS),
+              'constraint_kinds': lambda c: SymSet(c.fresh('constraint_kinds', SetS))},
+        kind='property', unfold=lambda I_, env, k, it: PatCount.unfold(nodes, k) + PatText.unfold(nodes, k) + Kinds.unfold(nodes, k))
+    inner = {}
+
+    def pre(I_, env):
+        inner['before'] = to_z3(env['pattern_length'], IntS)
+        return None
+
+    def inv_args(I_, env, j, it):
+        args = it.cols[0]
+        inner['args'] = args
+        return {'pattern_text_of_the_arguments_so_far': to_z3(env['pattern_length'], IntS) == inner['before'] + ArgLen(args, j)}
+    sp.loops[(q, fr.loop_ordinals[id(fors[1])])] = LoopSpec(inv_args, {'pattern_length': lambda c: c.fresh('pattern_length', IntS)}, kind='property', pre=pre,
+                                                            unfold=lambda I_, env, j, it: ArgLen.unfold(it.cols[0], j))
+    for g in (PatCount, PatText, Kinds):
+        for f in g.unfold(nodes, z3.IntVal(-1)):
+            ctx.assume(f)
+    r = I.call_function(fi, [rule])
     if not isinstance(r, tuple) or len(r) != 4:
         raise Unsupported('calculate_specificity must return a 4-tuple')
-    want = spec_key(rule.expr)
     names = ['priority', 'pattern_conditions', 'constraint_kinds', 'pattern_length']
+    if z3.is_true(z3.simplify(z3.And(*[to_z3(x, IntS) == 0 for x in r[1:]]))) and any(z3.eq(a, ParseFails(text)) for a in ctx.assumptions):
+        # an expression that does not parse (cannot happen for a loaded rule: _add_rule validates it) ranks by its priority alone
+        ctx.check('C09.key.unparsable_expression_ranks_by_priority_only', to_z3(r[0], IntS) == R_priority(rule.expr), 'property')
+        ctx.cover('calculate_specificity.unparsable')
+        return
+    want = spec_key(rule.expr)
     for j in range(4):
         ctx.check('C09.key.%d.%s' % (j, names[j]), to_z3(r[j], IntS) == want[j], 'property')
     ctx.cover('calculate_specificity.exit')
